@@ -9,6 +9,35 @@ CHECKS = {
    text="TLC proves on the specification that every conforming spelling of every value sequence of the bounded universe is read back as exactly that sequence by the implementation-shaped lexer (every reachable lexer mode x lookahead byte x token boundary); every behaviour TLC simulates and a few hundred (thorough: 12 000) random streams far beyond the bound are run through the real jawk::go and TLC checks each recorded run against the independent RFC 8259 reader evaluated on the input bytes and on every output row.",
    note="Trusted: the Rust harness recording bytes; the decimal->nearest-double table (python float) for numbers beyond 15 significant digits; TLC. Exhaustive only inside the bounded universe; beyond it sampled.",
    design="DESIGN.md section 6 C01"),
+
+ "C03": dict(
+   technique="TLC model checking of Pipeline.tla: implementation-shaped stage machine (process/complete, Continue/Break) vs the declarative stage composition Ref (MC_Pipe: Composition, 4 option families) + replay of simulated model behaviours into jawk::go + trace validation of random configurations x histories against Ref (Trace_Pipe)",
+   text="TLC shows that the stage machine transcribed from the code prints exactly Ref(cfg, input) - the documented stages as pure list functions in the documented order - for every configuration of four option families and every input history of up to 3 rows (thorough 4); each named historical deviation (limiter not forwarding complete, wrong tie dropped, secondary sorters truncating) must still produce TLC's counterexample. Simulated behaviours of that model and 300 (thorough 20 000) random configurations x histories of up to 40 rows are run through the real jawk::go with the options in random order, and TLC validates every recorded output against Ref.",
+   note='Trusted: the Rust harness recording bytes; TLC; the strict RFC 8259 reader of the specification for reading rows back. Option expressions are drawn from the core fragment (extractors, literals, :variables). Exhaustive only inside the bounded model; beyond it seeded sampling.', design="DESIGN.md section 6 C03"),
+ "C07": dict(
+   technique="TLC: order axioms of JCmp over all triples of a universe (MC_Order) + sorter machine = stable lexicographic sort (MC_Pipe family sort) + trace validation of --sort-by runs (1..3 keys, ASC/DESC in any case) against StableSortBy (Trace_Pipe)",
+   text="TLC checks that the specified order is a total preorder whose equivalence is the equality of `=` with the documented type ranks (all triples of a 37-value universe), and that the bucket/deque sorter chain with the top-N shortcut equals the stable lexicographic sort with the first key most significant for all histories of <= 3 rows (thorough 4); real runs over key universes of all JSON types with many ties and absent keys (up to 40 rows, 1..3 keys) are validated against that sort.",
+   note='Trusted: the Rust harness recording bytes; TLC; the strict RFC 8259 reader of the specification for reading rows back. Option expressions are drawn from the core fragment (extractors, literals, :variables). Exhaustive only inside the bounded model; beyond it seeded sampling.' + " At most one distinct object per run among the keys (order between different objects is undocumented). The sort functions and < <= > >= are bound to the same order by the C04 expression oracle.", design="DESIGN.md section 6 C07"),
+ "C08": dict(
+   technique="TLC invariant LimitIsSlice on the stage machine (MC_Pipe families sort, group) + paired real runs with/without --skip/--take validated against the slice relation (Trace_Pipe rel=slice) and against Ref",
+   text="TLC shows on the model that the limited machine prints exactly rows S..S+T-1 of what the unlimited machine prints, for 0..2 sort keys with ties and absent keys, and that group/merge collections are built from exactly those rows and are emitted; paired real runs (same input, with and without the limits) for S,T in 0..6, up to 3 sort keys and up to 40 rows are validated by TLC against the slice relation on the two real outputs.",
+   note='Trusted: the Rust harness recording bytes; TLC; the strict RFC 8259 reader of the specification for reading rows back. Option expressions are drawn from the core fragment (extractors, literals, :variables). Exhaustive only inside the bounded model; beyond it seeded sampling.', design="DESIGN.md section 6 C08"),
+ "C09": dict(
+   technique="TLC invariant OneCollection on the stage machine (MC_Pipe family group) + real grouped/merged runs validated against Ref and, paired with the ungrouped run, against the collection built from its rows (Trace_Pipe rel=group, rel=same for text output)",
+   text="TLC shows on the model that exactly one collection is emitted after end of input, built from the rows the ungrouped machine prints, also when no row survives; real runs with group keys over strings (empty, non-ASCII), numbers, null, booleans, arrays and absent keys and with upstream select/filter/unique/sort/skip/take/split are validated against the reference and against the ungrouped run of the same input.",
+   note='Trusted: the Rust harness recording bytes; TLC; the strict RFC 8259 reader of the specification for reading rows back. Option expressions are drawn from the core fragment (extractors, literals, :variables). Exhaustive only inside the bounded model; beyond it seeded sampling.', design="DESIGN.md section 6 C09"),
+ "C10": dict(
+   technique="TLC invariant UniqueIsFirst on the stage machine (MC_Pipe family uniq) + paired real runs with/without --unique validated against first-occurrences under JEq (Trace_Pipe rel=unique) and against Ref",
+   text="TLC shows on the model that --unique keeps exactly the first occurrences under the equality of `=` (on inputs and on selections, absent selections included); paired real runs on inputs with many repeats - numerically equal spellings (1, 1.0, 1e0, 10e-1), different escapes of equal strings, nested equal collections, with and without selections - are validated against the first-occurrence relation on the two real outputs.",
+   note='Trusted: the Rust harness recording bytes; TLC; the strict RFC 8259 reader of the specification for reading rows back. Option expressions are drawn from the core fragment (extractors, literals, :variables). Exhaustive only inside the bounded model; beyond it seeded sampling.' + " -0 and member-order permutations are outside the property's quantifier and are not generated.", design="DESIGN.md section 6 C10"),
+ "C11": dict(
+   technique="TLC invariant Local on the stage machine (every split point of every bounded history, stateless configurations) + triples of real runs (A.B, A, B) validated against the concatenation relation (Trace_Pipe rel=concat)",
+   text="TLC shows on the model that for stateless configurations the output of A.B is the output of A followed by that of B at every split point; triples of real runs with B fresh, a permutation of A or repetitions of rows of A, over pipelines of --set/--split-by/--filter/--select with expressions from many function groups (regex with cache sizes 0,1,2,64, variables, macros) and all output styles are validated byte for byte (title row accounted once).",
+   note="Trusted: the Rust harness; TLC. The expression pool is fixed (valid texts); & selectors excluded as the property says.", design="DESIGN.md section 6 C11"),
+ "C14": dict(
+   technique="TLC safety (StopsReading, BreakEndsReading) and liveness (Terminates under weak fairness, unbounded source) on the stage machine + real runs on unbounded inputs (endless stdin, named pipe as file operand) validated against the read bound (Trace_Pipe kind=stop)",
+   text="TLC shows that once skip+take rows exist a streaming machine never pulls another value and that, with an unbounded source and weak fairness, it reaches done; the deviations 'select/split swallow Break' and 'split answers with the last element's decision' must yield counterexamples (a lasso for liveness). Real runs on endless inputs (stdin and a FIFO) for T in 0..5, S in 0..3 over streaming pipelines must return and may not have been handed more than 64 KiB (FIFO: 144 KiB) past the value completing the rows; the rows must equal the reference.",
+   note='Trusted: the Rust harness recording bytes; TLC; the strict RFC 8259 reader of the specification for reading rows back. Option expressions are drawn from the core fragment (extractors, literals, :variables). Exhaustive only inside the bounded model; beyond it seeded sampling.' + " A watchdog of 30 s decides 'did not return'.", design="DESIGN.md section 6 C14"),
 }
 def main():
     checks = []
